@@ -2,7 +2,7 @@
 //@ props C14 C15
 //@ assume the block handlers are verified for EVERY block content of at least the minimal size `szx::load` checks before dispatching (37/37/8/18/5/1/3 bytes: scan `szx_min_sizes`); the chunk loop of `load` itself (byte-string patterns, from_utf8, make_ascii_uppercase) is outside the Verus subset and is covered by the bounded Kani group K-core::loaders-szx (thorough tier)
 //@ assume Regs setters / swap_af_alt / exx / inc_pc / set_q / clear_q / set_mem_ptr (rustzx-z80) are external with field-update contracts; the instructions built on them are the subject of K-z80 (C01)
-//@ assume ZXController::{restore_7ffd, write_io}, ZXAyChip::{select_reg, set_regs}, ZXColor::from_bits are external here with a ghost call log; their real contracts are unit ctl
+//@ assume ZXController::{restore_7ffd, write_ula_port}, ZXAyChip::{select_reg, set_regs}, ZXColor::from_bits are external here with a ghost call log; their real contracts are unit ctl
 //@ assume ZXMemory::ram_page_data_mut: pages below the machine's page count are valid, the slice is exactly the 16 KiB of the bank (Kani K-core::memory::page_slices)
 //@ assume decompress_zlib_stream (miniz_oxide) is external: returns any Ok(Vec) / Err
 use vstd::prelude::*;
@@ -160,9 +160,9 @@ pub struct ZXController<H: Host> {
     pub mouse: Option<KempstonMouse>,
     pub border_color: ZXColor,
     pub frame_clocks: usize,
-    /// ghost: paging latch values handed to restore_7ffd, ULA port writes handed to write_io
+    /// ghost: paging latch values handed to restore_7ffd, bytes handed to write_ula_port
     pub latch_restores: Ghost<Seq<u8>>,
-    pub io_writes: Ghost<Seq<(u16, u8)>>,
+    pub ula_writes: Ghost<Seq<u8>>,
     pub rest: CtlRest<H>,
 }
 impl<H: Host> ZXController<H> {
@@ -173,10 +173,19 @@ impl<H: Host> ZXController<H> {
             final(self).memory.pages() == old(self).memory.pages(),
             forall|q: u8| final(self).memory.ram_page(q) == old(self).memory.ram_page(q),
     { unimplemented!() }
-    /// the ULA write also sets the border colour (unit ctl); everything else this loader looks at is kept
+    /// a real port cycle (unit ctl): spends bus time, so the frame clock and everything clocked by
+    /// it move; kept here so that a loader going back to it is refuted, not merely unparsable
     #[verifier::external_body]
     pub fn write_io(&mut self, port: u16, data: u8)
-        ensures *final(self) == (ZXController { io_writes: Ghost(old(self).io_writes@.push((port, data))),
+        ensures final(self).latch_restores@ == old(self).latch_restores@,
+            forall|q: u8| final(self).memory.ram_page(q) == old(self).memory.ram_page(q),
+            final(self).memory.pages() == old(self).memory.pages(),
+    { unimplemented!() }
+    /// unit ctl (real contract of write_ula_port): border colour and beeper bits follow the byte,
+    /// no bus time, nothing else this loader looks at changes
+    #[verifier::external_body]
+    pub fn write_ula_port(&mut self, data: u8)
+        ensures *final(self) == (ZXController { ula_writes: Ghost(old(self).ula_writes@.push(data)),
                                                 border_color: final(self).border_color, rest: final(self).rest, ..*old(self) }),
     { unimplemented!() }
 }
@@ -261,9 +270,10 @@ pub open spec fn z80r_regs(d: Seq<u8>) -> Regs {
             let d = block_data@;
             let c0 = old(emulator).controller;
             let c1 = final(emulator).controller;
-            // paging latch (always 0 on the 16K/48K ids), port 0xFE byte, then the border field wins
+            // paging latch (always 0 on the 16K/48K ids), port 0xFE byte (applied without bus time:
+            // the frame clock does not move), then the border field wins
             &&& c1.latch_restores@ == c0.latch_restores@.push(if machine_id < 2 { 0u8 } else { d[1] })
-            &&& c1.io_writes@ == c0.io_writes@.push((0xfeu16, d[3]))
+            &&& c1.ula_writes@ == c0.ula_writes@.push(d[3])
             &&& c1.border_color == ZXColor::of_bits(d[0] & 7)
             &&& c1.mixer == c0.mixer && c1.kempston == c0.kempston && c1.mouse == c0.mouse && c1.frame_clocks == c0.frame_clocks
             &&& forall|q: u8| c1.memory.ram_page(q) == c0.memory.ram_page(q)
